@@ -146,10 +146,34 @@ func (captureIngester) Read() (schemahandler.RawRecord, []byte, error) { return 
 func (captureIngester) IsContinuableError(error) bool                  { return false }
 func (captureIngester) FmtErr(f string, a ...interface{}) error        { return fmt.Errorf(f, a...) }
 
-type captureHandler struct{ got *[]byte }
+type captureHandler struct {
+	got     *[]byte
+	readBuf *int // 0: ioutil.ReadAll; n > 0: the consumer reads n bytes at a time
+}
 
 func (h captureHandler) NewIngester(_ *transformctx.Ctx, input io.Reader) (schemahandler.Ingester, error) {
-	b, err := ioutil.ReadAll(input)
+	var b []byte
+	var err error
+	if *h.readBuf <= 0 {
+		b, err = ioutil.ReadAll(input)
+	} else {
+		// a consumer with a small buffer, as the format readers are: the bufio.Reader inside
+		// StripBOM then refills its whole 4096-byte buffer from the decoder each time
+		p := make([]byte, *h.readBuf)
+		for zero := 0; err == nil && zero < 100; {
+			var n int
+			n, err = input.Read(p)
+			b = append(b, p[:n]...)
+			if n == 0 {
+				zero++
+			} else {
+				zero = 0
+			}
+		}
+		if err == io.EOF {
+			err = nil
+		}
+	}
 	if err != nil {
 		return nil, err
 	}
@@ -158,8 +182,9 @@ func (h captureHandler) NewIngester(_ *transformctx.Ctx, input io.Reader) (schem
 }
 
 type captureSchema struct {
-	s   omniparser.Schema
-	got []byte
+	s       omniparser.Schema
+	got     []byte
+	readBuf int
 }
 
 func encSetting(enc string) string {
@@ -176,7 +201,7 @@ func newCaptureSchema(enc string) (*captureSchema, error) {
 		if ctx.Header.ParserSettings.Version != "verif.capture" {
 			return nil, errs.ErrSchemaNotSupported
 		}
-		return captureHandler{got: &cs.got}, nil
+		return captureHandler{got: &cs.got, readBuf: &cs.readBuf}, nil
 	}}
 	src := `{"parser_settings": {"version": "verif.capture", "file_format_type": "capture"` + encSetting(enc) + `}}`
 	s, err := omniparser.NewSchema("capture", strings.NewReader(src), ext)
@@ -211,7 +236,7 @@ type step struct {
 	Bytes string `json:"bytes,omitempty"`
 }
 
-func transcript(s omniparser.Schema, mode string, in []byte) (steps []step) {
+func transcript(s omniparser.Schema, mode string, in []byte, maxReads int) (steps []step) {
 	defer func() {
 		if r := recover(); r != nil {
 			steps = append(steps, step{Kind: "panic"})
@@ -221,7 +246,7 @@ func transcript(s omniparser.Schema, mode string, in []byte) (steps []step) {
 	if err != nil {
 		return []step{{Kind: "newtransform-error"}}
 	}
-	for i := 0; i < 60; i++ {
+	for i := 0; i < maxReads; i++ {
 		b, err := t.Read()
 		switch {
 		case err == nil:
@@ -294,11 +319,59 @@ func min(a, b int) int {
 // ---- case descriptions (replayable) -----------------------------------------------------------------
 
 type caseDesc struct {
-	Kind     string `json:"kind"`     // table | pipe | transcript
-	Enc      string `json:"encoding"` // "" = no encoding setting
-	InputHex string `json:"input_hex,omitempty"`
-	Mode     string `json:"reader,omitempty"`
-	Format   string `json:"format,omitempty"`
+	Kind     string    `json:"kind"`     // table | pipe | transcript
+	Enc      string    `json:"encoding"` // "" = no encoding setting
+	InputHex string    `json:"input_hex,omitempty"`
+	Mode     string    `json:"reader,omitempty"`
+	Format   string    `json:"format,omitempty"`
+	Consumer int       `json:"consumer_read_size,omitempty"` // pipe: 0 = ioutil.ReadAll, n = the ingester reads n bytes at a time
+	Long     *longSpec `json:"long_input,omitempty"`         // instead of input_hex
+}
+
+// longSpec is the compact, replayable description of a long input: a base (the ASCII filler
+// pattern, or the well-formed rows of a format) with bytes patched in, optionally after a prefix.
+type longSpec struct {
+	Base    string  `json:"base"` // "filler" | "rows:<fixture index>"
+	Len     int     `json:"len"`  // filler: length; rows: minimal length
+	Prefix  string  `json:"prefix_hex,omitempty"`
+	Patches []patch `json:"patches"`
+}
+type patch struct {
+	At  int    `json:"at"`
+	Hex string `json:"hex"`
+}
+
+func (l *longSpec) build() []byte {
+	var b []byte
+	if l.Base == "filler" {
+		b = make([]byte, l.Len)
+		for i := range b {
+			b[i] = fillerByte(i)
+		}
+	} else {
+		var fi int
+		fmt.Sscanf(l.Base, "rows:%d", &fi)
+		b = longRows(fi, l.Len)
+	}
+	for _, p := range l.Patches {
+		x, _ := hex.DecodeString(p.Hex)
+		if p.At >= 0 && p.At+len(x) <= len(b) {
+			copy(b[p.At:], x)
+		}
+	}
+	pre, _ := hex.DecodeString(l.Prefix)
+	return append(pre, b...)
+}
+
+// mkDesc: long inputs are described by their longSpec, short ones by their bytes.
+func (e *env) mkDesc(kind, enc string, in []byte, mode string) caseDesc {
+	d := caseDesc{Kind: kind, Enc: enc, Mode: mode}
+	if e.curLong != nil {
+		d.Long = e.curLong
+	} else {
+		d.InputHex = hex.EncodeToString(in)
+	}
+	return d
 }
 
 var encs = []string{"utf-8", "iso-8859-1", "windows-1252"}
@@ -314,6 +387,9 @@ type env struct {
 	o        *vh.Opts
 	sum      *vh.Summary
 	cw       *vh.CaseWriter
+	curLong  *longSpec      // set while a long input is being run
+	trN      int            // transcripts run so far
+	cwLong   *vh.CaseWriter // long streams: few cases per shard, so that they are evaluated in parallel
 	capture  map[string]*captureSchema
 	fixtures []vh.Fixture
 	schemas  map[string]omniparser.Schema // format + "/" + enc
@@ -357,15 +433,50 @@ func (e *env) schemaFor(fi int, enc string) omniparser.Schema {
 
 // runPipe observes the stream handed to the ingester, evaluates the oracle on it and records
 // the model case.
-func (e *env) runPipe(enc string, in []byte, mode string) {
-	d := caseDesc{Kind: "pipe", Enc: enc, InputHex: hex.EncodeToString(in), Mode: mode}
+func (e *env) runPipe(enc string, in []byte, mode string) { e.runPipeX(enc, in, mode, 0, true) }
+
+// diffDetail describes where two streams part (long streams are not dumped in full).
+func diffDetail(got, want []byte) map[string]interface{} {
+	i := 0
+	for i < len(got) && i < len(want) && got[i] == want[i] {
+		i++
+	}
+	win := func(b []byte) string {
+		lo, hi := i-8, i+8
+		if lo < 0 {
+			lo = 0
+		}
+		if hi > len(b) {
+			hi = len(b)
+		}
+		if lo > hi {
+			lo = hi
+		}
+		return hex.EncodeToString(b[lo:hi])
+	}
+	d := map[string]interface{}{"first_difference_at": i, "observed_len": len(got), "expected_len": len(want),
+		"observed_around_hex": win(got), "expected_around_hex": win(want)}
+	if len(got) <= 64 && len(want) <= 64 {
+		d["observed_hex"], d["expected_hex"] = hex.EncodeToString(got), hex.EncodeToString(want)
+	}
+	return d
+}
+
+// runPipeX: consumer = how the ingester reads the stream (0: ReadAll, n: n bytes at a time);
+// toModel = also hand the case to the Coq model.
+func (e *env) runPipeX(enc string, in []byte, mode string, consumer int, toModel bool) {
+	d := e.mkDesc("pipe", enc, in, mode)
+	d.Consumer = consumer
 	cs := e.captureFor(enc)
 	if cs == nil {
 		return
 	}
+	vh.Current(e.o, d)
+	cs.readBuf = consumer
 	got, err := cs.stream(mode, in)
+	cs.readBuf = 0
 	if e.verbose {
-		fmt.Printf("pipe enc=%q reader=%s input=%x\n  implementation: %x (err=%v)\n  expected      : %x\n", enc, mode, in, got, err, expectedStream(enc, in))
+		fmt.Printf("pipe enc=%q reader=%s consumer=%d input=%d bytes\n  difference from the standard conversion: %v (err=%v)\n", enc, mode, consumer, len(in), diffDetail(got, expectedStream(enc, in)), err)
 	}
 	if err != nil {
 		e.sum.Fail("NewTransform failed on an in-memory input", d, err.Error())
@@ -373,25 +484,66 @@ func (e *env) runPipe(enc string, in []byte, mode string) {
 	}
 	want := expectedStream(enc, in)
 	if !bytes.Equal(got, want) {
-		e.sum.Fail("stream handed to the format reader differs from the standard conversion of the input to UTF-8 (one leading BOM removed for utf-8)", d,
-			map[string]string{"observed_hex": hex.EncodeToString(got), "expected_hex": hex.EncodeToString(want)})
+		e.sum.Fail("stream handed to the format reader differs from the standard conversion of the input to UTF-8 (one leading BOM removed for utf-8)", d, diffDetail(got, want))
 	}
-	if mode != "whole" {
+	if mode != "whole" || consumer != 0 {
 		whole, err2 := cs.stream("whole", in)
 		if err2 != nil || !bytes.Equal(whole, got) {
-			e.sum.Fail("stream depends on how the input is split into reads", d,
-				map[string]string{"split_hex": hex.EncodeToString(got), "whole_hex": hex.EncodeToString(whole)})
+			e.sum.Fail("stream depends on how the input is split into reads / how the consumer reads", d, diffDetail(got, whole))
 		}
 	}
 	nontrivial := hasHigh(in) && enc != "" && enc != "utf-8" || bytes.HasPrefix(in, bom[:1])
-	e.sum.Count("pipe|"+enc+"|"+d.InputHex+"|"+mode, nontrivial)
+	e.sum.Count(fmt.Sprintf("pipe|%s|%s|%s|%d", enc, vh.KeyOf(in), mode, consumer), nontrivial)
 	e.sum.Hist("pipe:enc=" + encLabel(enc))
 	e.sum.Hist("pipe:reader=" + modeLabel(mode))
-	k := enc + "|" + d.InputHex
-	if !e.seenPipe[k] {
-		e.seenPipe[k] = true
-		e.cw.Add(fmt.Sprintf("PipeCase %s %s %s", coqEnc(enc), vh.CoqHex(in), vh.CoqHex(got)), d)
+	if len(in) >= 4096 {
+		e.sum.Hist("pipe:long-input(>=4096)")
 	}
+	k := enc + "|" + vh.KeyOf(in)
+	if toModel && !e.seenPipe[k] {
+		e.seenPipe[k] = true
+		if len(in) >= 1024 {
+			// long streams as segments (a 10 KB hex literal costs coqc seconds to read)
+			e.cwLong.Add(fmt.Sprintf("SegPipeCase %s %s %s", coqEnc(enc), coqSegs(in), coqSegs(got)), d)
+		} else {
+			e.cw.Add(fmt.Sprintf("PipeCase %s %s %s", coqEnc(enc), vh.CoqHex(in), vh.CoqHex(got)), d)
+		}
+	}
+}
+
+// fillerByte is byte i of the filler pattern (Model/Encoding.v: fill).
+func fillerByte(i int) byte { return byte('a' + i%23) }
+
+// coqSegs writes b as Model.Encoding segments: maximal stretches (>= 16 bytes) that follow the
+// filler pattern become SFill phase len, everything else literal bytes.
+func coqSegs(b []byte) string {
+	var segs []string
+	var lit []byte
+	flush := func() {
+		if len(lit) > 0 {
+			segs = append(segs, "SLit "+vh.CoqHex(lit))
+			lit = nil
+		}
+	}
+	for i := 0; i < len(b); {
+		n := 0
+		if b[i] >= 'a' && b[i] < 'a'+23 {
+			ph := int(b[i] - 'a')
+			for i+n < len(b) && b[i+n] == fillerByte(ph+n) {
+				n++
+			}
+			if n >= 16 {
+				flush()
+				segs = append(segs, fmt.Sprintf("SFill %s %s", vh.CoqN(ph), vh.CoqN(n)))
+				i += n
+				continue
+			}
+		}
+		lit = append(lit, b[i])
+		i++
+	}
+	flush()
+	return vh.CoqList(segs)
 }
 
 func hasHigh(b []byte) bool {
@@ -417,14 +569,17 @@ func modeLabel(m string) string {
 
 // runTranscript compares (bytes, enc) with (utf8_of(bytes), utf-8) on one built-in format.
 func (e *env) runTranscript(fi int, enc string, in []byte, mode string) {
-	d := caseDesc{Kind: "transcript", Enc: enc, InputHex: hex.EncodeToString(in), Mode: mode, Format: e.fixtures[fi].Format}
+	d := e.mkDesc("transcript", enc, in, mode)
+	d.Format = e.fixtures[fi].Format
 	s, ref := e.schemaFor(fi, enc), e.schemaFor(fi, "utf-8")
 	if s == nil || ref == nil {
 		return
 	}
-	a := transcript(s, mode, in)
+	vh.Current(e.o, d)
+	maxReads := 60 + len(in)/8
+	a := transcript(s, mode, in, maxReads)
 	conv := expectedStream(enc, in)
-	b := transcript(ref, "whole", conv)
+	b := transcript(ref, "whole", conv, maxReads)
 	if e.verbose {
 		fmt.Printf("transcript format=%s enc=%q reader=%s input=%x\n  (bytes, %s)        : %+v\n  (utf8(bytes), utf-8): %+v\n", d.Format, enc, mode, in, encLabel(enc), a, b)
 	}
@@ -443,21 +598,192 @@ func (e *env) runTranscript(fi int, enc string, in []byte, mode string) {
 		e.sum.Hist("transcript:delivers-records")
 	}
 	if ok, i := sameSteps(a, b); !ok {
-		e.sum.Fail("Read transcript of (bytes, "+encLabel(enc)+") differs from the transcript of (utf8(bytes), utf-8)", d,
-			map[string]interface{}{"first_difference_at": i, "with_encoding": a, "preconverted_utf8": b, "preconverted_hex": hex.EncodeToString(conv)})
+		detail := map[string]interface{}{"first_difference_at": i, "with_encoding": a, "preconverted_utf8": b, "preconverted_hex": hex.EncodeToString(conv)}
+		if len(in) > 2000 {
+			// long input: only the step at which the transcripts part
+			at := func(x []step) interface{} {
+				if i < len(x) {
+					return x[i]
+				}
+				return "(transcript ended)"
+			}
+			detail = map[string]interface{}{"first_difference_at": i, "with_encoding": at(a), "preconverted_utf8": at(b), "steps": []int{len(a), len(b)}}
+		}
+		e.sum.Fail("Read transcript of (bytes, "+encLabel(enc)+") differs from the transcript of (utf8(bytes), utf-8)", d, detail)
 	}
 	nontrivial := nrec > 0 && (hasHigh(in) && enc != "" && enc != "utf-8" || bytes.HasPrefix(in, bom))
-	e.sum.Count("transcript|"+d.Format+"|"+enc+"|"+d.InputHex+"|"+mode, nontrivial)
+	e.sum.Count("transcript|"+d.Format+"|"+enc+"|"+vh.KeyOf(in)+"|"+mode, nontrivial)
+	if len(in) > 2000 {
+		e.sum.Hist("transcript:long-input")
+		e.runPipeX(enc, in, mode, 0, false)
+		return
+	}
 	if nontrivial {
 		e.sum.Sample(map[string]interface{}{"case": d, "transcript": a})
 	}
-	e.runPipe(enc, in, mode)
+	e.trN++
+	e.runPipeX(enc, in, mode, 0, e.trN%3 == 0)
+}
+
+// longRows builds an all-ASCII input of at least minLen bytes for the format of fixture fi:
+// many well-formed records whose fields a and c are runs of letters.
+func longRows(fi int, minLen int) []byte {
+	var b bytes.Buffer
+	w := func(s string) { b.WriteString(s) }
+	row := 0
+	next := func() (string, string, string) {
+		row++
+		l := string(rune('a' + row%26))
+		return strings.Repeat(l, 5+row%2), fmt.Sprint(row % 1000), strings.Repeat(l, 6-row%2)
+	}
+	switch fi {
+	case 0:
+		w("a,b,c\n")
+		for b.Len() < minLen {
+			x, n, y := next()
+			w(x + "," + n + "," + y + "\n")
+		}
+	case 1:
+		w("H|head\n")
+		for b.Len() < minLen {
+			x, n, y := next()
+			w("R|" + x + "|" + n + "|" + y + "\n")
+		}
+	case 2:
+		w("HDR*1~")
+		for b.Len() < minLen {
+			x, n, y := next()
+			w("DAT*" + x + "*" + n + "*" + y + "~")
+		}
+		w("TRL*9~")
+	case 3:
+		for b.Len() < minLen {
+			x, n, y := next()
+			w(pad6(x) + (n + "     ")[:5] + pad6(y) + "\n")
+		}
+	case 4:
+		w("Hhead\n")
+		for b.Len() < minLen {
+			x, n, y := next()
+			w("R" + pad6(x) + (n + "     ")[:5] + pad6(y) + "\n")
+		}
+	case 5:
+		w("[")
+		for b.Len() < minLen {
+			x, n, y := next()
+			if row > 1 {
+				w(",")
+			}
+			w(`{"a":"` + x + `","b":"` + n + `","c":"` + y + `"}`)
+		}
+		w("]")
+	default:
+		w("<r>")
+		for b.Len() < minLen {
+			x, n, y := next()
+			w("<n><a>" + x + "</a><b>" + n + "</b><c>" + y + "</c></n>")
+		}
+		w("</r>")
+	}
+	return b.Bytes()
+}
+
+func pad6(s string) string { return (s + "      ")[:6] }
+
+// boundaryOffsets: offsets around the multiples of 4096 (the size of the bufio.Reader that
+// ios.StripBOM puts in front of the format reader, and of x/text's transform.Reader buffers).
+func boundaryOffsets() []int {
+	var offs []int
+	for p := 4090; p <= 4100; p++ {
+		offs = append(offs, p)
+	}
+	for p := 8186; p <= 8196; p++ {
+		offs = append(offs, p)
+	}
+	for _, k := range []int{3, 4, 5, 8} {
+		for p := k*4096 - 3; p <= k*4096+3; p++ {
+			offs = append(offs, p)
+		}
+	}
+	return offs
+}
+
+// longCases: filler of ASCII with non-ASCII bytes placed at and across the buffer boundaries,
+// for the direct stream comparison (all encodings, all offsets) and for the formats.
+func (e *env) longCases(r *vh.Rng) {
+	offs := boundaryOffsets()
+	// what is placed at the offset: single bytes of each UTF-8 length class and runs
+	inserts := [][]byte{{0xE9}, {0x80}, {0x81}, {0xFF}, {0xE9, 0xE8}, {0xE9, 0xE8, 0xE7}, {0x80, 0x80, 0x80, 0x80, 0x80}, {0xC3, 0xA9}, {0xE2, 0x82, 0xAC}, {0xF0, 0x9F, 0x98, 0x80}, {0xEF, 0xBB, 0xBF}}
+	n := 0
+	for _, enc := range encs {
+		for _, p := range offs {
+			for ii, ins := range inserts {
+				// the boundary under test is the last one the input reaches
+				e.curLong = &longSpec{Base: "filler", Len: p + len(ins) + 5 + ii, Patches: []patch{{p, hex.EncodeToString(ins)}}}
+				in := e.curLong.build()
+				consumer := []int{61, 0, 4096, 1000}[(n+ii)%4]
+				mode := "whole"
+				if n%9 == 8 {
+					mode = "chunks:4096,4095,3"
+				}
+				// the model evaluates one case per offset (rotating over what is inserted and the encoding)
+				e.runPipeX(enc, in, mode, consumer, (n+ii)%6 == 0)
+			}
+			n++
+		}
+		// runs of non-ASCII bytes across each boundary, every alignment
+		for _, k := range []int{1, 2, 3} {
+			for start := k*4096 - 9; start <= k*4096-1; start++ {
+				run := make([]byte, 18)
+				for i := range run {
+					run[i] = byte(0x80 + ((start+i)*7)%0x80)
+				}
+				e.curLong = &longSpec{Base: "filler", Len: k*4096 + 40, Patches: []patch{{start, hex.EncodeToString(run)}}}
+				e.runPipeX(enc, e.curLong.build(), "whole", []int{61, 0}[start%2], false)
+			}
+		}
+		// the same shifted by a leading BOM (utf-8: stripped, so the consumer's buffer is 3 bytes behind)
+		for _, p := range []int{4093, 4094, 4095, 4096, 4097, 4098, 4099, 8191, 8192} {
+			e.curLong = &longSpec{Base: "filler", Len: p + 8, Prefix: "efbbbf", Patches: []patch{{p, "e9a9"}}}
+			e.runPipeX(enc, e.curLong.build(), "whole", 61, false)
+		}
+	}
+	// formats: the byte at each boundary offset of a long well-formed input is replaced
+	for fi := range e.fixtures {
+		baseLen := len(longRows(fi, 3*4096+200))
+		for _, enc := range encs {
+			for pi, p := range offs {
+				if p+2 >= baseLen {
+					continue
+				}
+				full := fi == 0 || fi == 1 || fi == 3 || fi == 4 // csv, csv2, fixed-length, fixedlength2: every offset
+				if !full && pi%4 != fi%4 {
+					continue
+				}
+				pt := patch{p, "e9"}
+				switch (pi + fi) % 3 {
+				case 1:
+					pt = patch{p, "fc80"}
+				case 2:
+					pt = patch{p - 1, "e4f6fc"}
+				}
+				mode := "whole"
+				if pi%7 == 6 {
+					mode = "onebyte"
+				}
+				e.curLong = &longSpec{Base: fmt.Sprintf("rows:%d", fi), Len: 3*4096 + 200, Patches: []patch{pt}}
+				e.runTranscript(fi, enc, e.curLong.build(), mode)
+			}
+		}
+	}
+	e.curLong = nil
 }
 
 // ---- tables -----------------------------------------------------------------------------------------
 
 func (e *env) runTable(enc string) {
 	d := caseDesc{Kind: "table", Enc: enc}
+	vh.Current(e.o, d)
 	var obs []string
 	for b := 0; b < 256; b++ {
 		name := enc
@@ -518,14 +844,17 @@ func main() {
 	sum := vh.NewSummary("C18", o,
 		"inputs (all 256 single bytes, random byte strings, fixture records carrying every byte value) x encodings (absent, utf-8, iso-8859-1, windows-1252) x with/without leading BOM x reader splits x the seven formats; non-trivial = a code-page case whose input has a byte >= 0x80 (transcripts: and at least one record is delivered) or an input starting with (part of) a BOM; distinct by (kind, format, encoding, input, reader)")
 	cw := vh.NewCaseWriter(o, "C18", "Model.Encoding", "c18case", "check_case")
-	e := &env{o: o, sum: sum, cw: cw, capture: map[string]*captureSchema{}, fixtures: vh.Fixtures(),
+	cwLong := vh.NewCaseWriter(o, "C18L", "Model.Encoding", "c18case", "check_case")
+	cwLong.PerFile = 12
+	e := &env{o: o, sum: sum, cw: cw, cwLong: cwLong, capture: map[string]*captureSchema{}, fixtures: vh.Fixtures(),
 		schemas: map[string]omniparser.Schema{}, seenPipe: map[string]bool{}}
 
 	if o.Replay != "" {
 		e.verbose = true
 		e.replay(o.Replay)
 		cw.Flush()
-		sum.CaseFiles = cw.Files
+		cwLong.Flush()
+		sum.CaseFiles = append(cw.Files, cwLong.Files...)
 		sum.Write(o)
 		return
 	}
@@ -612,6 +941,9 @@ func main() {
 		}
 	}
 
+	// 4b. long inputs: non-ASCII bytes at and across the 4096-byte buffer boundaries
+	e.longCases(r)
+
 	// 5. random inputs: byte strings through the capture handler; generated and damaged fixture
 	// inputs through the formats
 	nPipe := o.Count(600, 30000)
@@ -640,7 +972,8 @@ func main() {
 	}
 
 	cw.Flush()
-	sum.CaseFiles = cw.Files
+	cwLong.Flush()
+	sum.CaseFiles = append(cw.Files, cwLong.Files...)
 	sum.Write(o)
 }
 
@@ -660,6 +993,10 @@ func (e *env) replay(path string) {
 	}
 	d := f.Case
 	in, _ := hex.DecodeString(d.InputHex)
+	if d.Long != nil {
+		in = d.Long.build()
+		e.curLong = d.Long
+	}
 	if d.Mode == "" {
 		d.Mode = "whole"
 	}
@@ -667,7 +1004,7 @@ func (e *env) replay(path string) {
 	case "table":
 		e.runTable(d.Enc)
 	case "pipe":
-		e.runPipe(d.Enc, in, d.Mode)
+		e.runPipeX(d.Enc, in, d.Mode, d.Consumer, true)
 	case "transcript":
 		for fi, fx := range e.fixtures {
 			if fx.Format == d.Format {
